@@ -12,7 +12,7 @@ import teneva
 LEVEL = "exploration"
 RULE = ("Hypothesis draws a tensor of TT-rank rho (gauss cores, uniform or ragged ranks 1..3, d 2..5), an expected rank m in rho..rho+2, mode "
         "sizes in m..m+3, a cap r in rho..rho+2 and an integer seed of the sample generator; the tensor is evaluated on sample_tt's set and "
-        "svd_incomplete's result is compared with the dense tensor; in 4 of 7 cases the tensor has generic integer cores (-4..4) and its sample values "
+        "svd_incomplete's result is compared with the dense tensor (overall magnitude 1e-100 .. 1e+100); in 4 of 7 cases the tensor has generic integer cores (-4..4) and its sample values "
         "are handed over as int64 / int32 / float64 arrays (all exact). Non-trivial = rho >= 2; distinct by SHA-1 of the case.")
 TOLERANCES = "||dense(result) - T|| <= 1e-7 ||T|| when every unfolding has condition number <= 1e6 on its rank (else only well-formedness); ranks <= cap"
 ASSUMPTIONS = ["continuous random cores ('almost all' tensors)", "every mode size >= m (the recovery needs distinct LHS prefixes/suffixes)", "cap r >= rho"]
@@ -28,7 +28,7 @@ def cases(draw, tier):
     m = rho + draw(st.integers(0, 2))
     n = [m + draw(st.integers(0, 3)) for _ in range(d)]
     return {"n": n, "r": r, "seed": draw(gen.seeds), "m": m, "cap": rho + draw(st.integers(0, 2)), "sseed": draw(st.integers(0, 10 ** 6)),
-            "scale10": draw(st.sampled_from([0, 0, 2, -2])), "float_cap": draw(st.booleans()),
+            "scale10": draw(st.sampled_from([0, 0, 2, -2, -9, -12, -30, 12, 30, -100, 100])), "float_cap": draw(st.booleans()),
             "seed_kind": draw(st.sampled_from(["int", "int", "generator", "generator_philox"])),
             # how the caller stores the sample values: a measured table may well be an integer array (not float32: NumPy then factorises in single precision); generic integer
             # cores (-4..4) give integer-valued tensors of the same TT-rank whose values every such dtype holds exactly
@@ -48,7 +48,7 @@ def prop(case, ctx):
     F = dense(T)
     nrm = fro(F)
     rho = max(r)
-    ctx.label(f"d={d}", f"rho={rho}", f"m-rho={case['m'] - rho}", f"cap-rho={case['cap'] - rho}")
+    ctx.label(f"d={d}", f"rho={rho}", f"m-rho={case['m'] - rho}", f"cap-rho={case['cap'] - rho}", f"scale=1e{case['scale10']}")
     ctx.nontrivial(rho >= 2)
     # the sample generator may be seeded by an int, by a Generator object (then every LHS block draws fresh numbers from it,
     # so prefixes of consecutive blocks are NOT nested)
